@@ -3,6 +3,7 @@
 package main
 
 import (
+	"os"
 	"github.com/bokysan/socketace/v2/internal/client/upstream"
 	"fmt"
 	"io"
@@ -96,6 +97,10 @@ func (lifeComp) Exec(op string) (string, string, string, bool) {
 	}
 	carrier, closer, ending := f[0], f[2], f[3]
 	n, _ := strconv.Atoi(f[1])
+	if ending == "slowdial" {
+		res, mon := slowDial(carrier, n)
+		return res, mon, carrier + " slowdial", strings.HasPrefix(res, "grow=")
+	}
 	if closer == "badpeer" {
 		if n < 1 || (ending != "hold" && ending != "close") || (carrier != "tcp" && carrier != "tcptls" && carrier != "starttls") {
 			return "bad-op", "", "bad", false
@@ -234,6 +239,7 @@ func (lifeComp) Gen(r *Rand, tier string, emit func(string)) {
 	emit("tcptls 12 badpeer hold")
 	emit("stdio 10 app timeout")
 	emit("stdio 10 app reset")
+	emit("tcp 6 app slowdial")
 	emit("tcp 10 app sessclose")
 	emit("ws 6 target sessclose")
 	emit("tcp 10 app cut")
@@ -249,6 +255,8 @@ func (lifeComp) Gen(r *Rand, tier string, emit func(string)) {
 		emit("starttls 30 badpeer hold")
 		emit("tcptls 30 badpeer close")
 		emit("tcp 10 app freeze")
+		emit("ws 6 app slowdial")
+		emit("tcptls 12 app slowdial")
 		emit("udp 6 app sessclose")
 		emit("tcp 100 app none")
 		emit("tcp 100 target none")
@@ -335,4 +343,98 @@ func (burstComp) Gen(r *Rand, tier string, emit func(string)) {
 		emit("stdio 5000 300")
 		emit("udp 3000 300")
 	}
+}
+
+// `life <carrier> <n> app slowdial`: n rounds; in each a logical connection is opened to a channel whose target is slow
+// to connect to, the carrier is cut while the server is still connecting, and only then the connection to the target
+// comes about.  Nobody is left to use it: the server must close it and keep nothing of the round.
+// result: `grow=<goroutines per round> spin=false` (+ ` after=stuck` when target connections stay open)
+// quiesceNonMux is quiesce() without the goroutines of multiplexer sessions: a session whose carrier was lost keeps its
+// send / keep-alive goroutines until its own keep-alive timeout (up to a minute) closes it — bounded lingering, which
+// a census taken right after the loss must not count as growth.
+func quiesceNonMux() int {
+	quiesce()
+	buf := make([]byte, 4<<20)
+	buf = buf[:runtime.Stack(buf, true)]
+	n := 0
+	for _, blk := range strings.Split(string(buf), "\n\n") {
+		if strings.HasPrefix(blk, "goroutine ") && !strings.Contains(blk, "created by github.com/xtaci/smux.newSession") {
+			n++
+		}
+	}
+	return n
+}
+
+func slowDial(carrier string, n int) (string, string) {
+	rig, err := NewRig(RigOpts{Carrier: carrier, Channels: map[string]string{"echo": "echo", "slow": "gate:hold"}, Insecure: true, Relay: true})
+	if err != nil {
+		return "fail:rig", err.Error()
+	}
+	defer rig.Close()
+	g0 := -1
+	open := 0
+	for round := 0; round < n+3; round++ {
+		if round == 3 {
+			g0 = quiesceNonMux() // the first rounds warm everything up
+		}
+		// (re-)establish the session
+		var lastErr error
+		for try := 0; try < 4; try++ {
+			if lastErr = oneConn(rig, "app", uint64(round*10+try)); lastErr == nil {
+				break
+			}
+			time.Sleep(150 * time.Millisecond)
+		}
+		if lastErr != nil {
+			return "fail:conn", fmt.Sprintf("round %d: %v", round, lastErr)
+		}
+		before := len(rig.Targets["slow"].Conns())
+		c, err := rig.Dial("slow")
+		if err != nil {
+			return "fail:conn", err.Error()
+		}
+		_, _ = c.Write([]byte("x"))
+		if !rig.Gates["slow"].WaitEntered(5 * time.Second) {
+			c.Close()
+			return "fail:conn", "the server never started to connect to the slow target"
+		}
+		rig.Relay.Cut() // the physical session ends while the server is connecting
+		time.Sleep(150 * time.Millisecond)
+		rig.Gates["slow"].Open() // now the target answers the connect
+		// the connection that came about must be closed by the server
+		stop := time.Now().Add(3 * time.Second)
+		closed := false
+		for time.Now().Before(stop) && !closed {
+			cs := rig.Targets["slow"].Conns()
+			if len(cs) > before {
+				if _, _, eof := cs[before].Received(); eof {
+					closed = true
+				}
+			}
+			time.Sleep(10 * time.Millisecond)
+		}
+		if !closed && round >= 3 {
+			open++
+		}
+		c.Close()
+	}
+	time.Sleep(200 * time.Millisecond)
+	g1 := quiesceNonMux()
+	if os.Getenv("VERIF_DEBUG") != "" {
+		buf := make([]byte, 1<<20)
+		buf = buf[:runtime.Stack(buf, true)]
+		fmt.Fprintf(os.Stderr, "%s\n", buf)
+	}
+	grow := int(float64(g1-g0)/float64(n) + 0.5)
+	if grow < 0 {
+		grow = 0
+	}
+	res := fmt.Sprintf("grow=%d spin=false", grow)
+	switch {
+	case open > 0:
+		return res + " after=stuck", fmt.Sprintf("in %d of %d rounds the connection to a slow target that came about after the session had ended was never closed by the server", open, n)
+	case grow > 0:
+		return res, fmt.Sprintf("goroutines grow with the number of sessions that ended while the server was connecting to a slow target: %d -> %d over %d rounds", g0, g1, n)
+	}
+	return res, ""
 }
